@@ -91,6 +91,19 @@ check("C05", "exploration",
       "choice-tree DFS with deviation bound, differential oracle between the two front ends of the real code",
       "DESIGN.md §3/C05")
 
+check("C06", "fault_enumeration",
+      "Fault enumeration on the real XML reader/lexer/type checker: accepted base models x 11 text blocks x 9 fault kinds "
+      "(undeclared identifier, clock for operand, token deleted, bracket deleted, stray ) ] }, semicolon deleted, side "
+      "effect, unterminated comment) at every token position x 3 (quick) / 7 (thorough) layout variants (blank lines, "
+      "&#13;&#10; line ends, block and line comments, tabs, backslash continuations). Every error and warning is resolved "
+      "against an independent DOM of the same bytes: XPath selects exactly one element, lines within the element's text, "
+      "columns within the line, start not after end; an error lies in the faulted block (only there for non-declaring "
+      "labels); an unknown identifier is covered exactly.",
+      "ElementTree is the independent DOM. An edit of a declaring block that leaves it valid (renamed declaration etc.) "
+      "legitimately surfaces at the uses; 'an error inside the block' is then not demanded.",
+      "exhaustive single-fault enumeration (every token position x fault kind x layout) on the real code, independent-DOM oracle",
+      "DESIGN.md §3/C06")
+
 check("C07", "exploration",
       "One name declared at any subset of nine scope levels (global, template parameter/local, function parameter/local, "
       "nested block, iteration/quantifier/select binder; 64+6 subsets quick, all 288 admissible subsets thorough) with "
